@@ -11,10 +11,16 @@ def run(ctx):
     cfgs = [["--leaf", "64", "--conc", "4", "--deep=false", "--final-download=false", "--stash"]]
     if ctx.thorough:
         cfgs += [["--leaf", "4096", "--conc", "1", "--crc", "--deep=false", "--final-download=false", "--stash"]]
-    results = vlib.parallel(mc.replay_jobs(ctx, beh, cfgs), max_workers=4)
+    # scripted: a file replaced by a directory of the same name (deletions must be applied before additions),
+    # with one download/upload worker so that the order of the update's steps is the order of its diff
+    swap = mc.gen_meta(ctx, "swap.ndjson", 0, 12, False, True, False, '{"diff", "update"}', maxbundles=4, script="swap")
+    results = vlib.parallel(mc.replay_jobs(ctx, beh, cfgs) +
+                            mc.replay_jobs(ctx, swap, [["--leaf", "64", "--conc", "1", "--deep=false", "--final-download=false"]],
+                                           prefix="swap"), max_workers=4)
     return mc.finish(ctx, results,
                      "behaviour = random uploads of trees over a shared path pool (identical, disjoint, changed content, "
                      "empty) followed by diff(a,b) compared with Meta!DiffOp and update(a->b) compared with a fresh download "
                      "of b (files and .datamon metadata), also starting from a local copy of a taken before delete-files rewrote "
-                     "it; non-trivial = at least 3 mutating steps",
+                     "it; plus one scripted history in which a file becomes a directory (one worker); non-trivial = at least 3 "
+                     "mutating steps",
                      ["diff is by content key: same path with same content is not reported"])
